@@ -107,3 +107,51 @@ def atom_table_deductive(rep):
         if not installed:
             probs.append('%s does not install an empty atom table' % q)
     rep.add_checked('engine.YP._atom_store.encapsulated', not probs, '; '.join(probs), 'ast', function='engine.YP.atom', witness=probs or None)
+
+
+def unify_deductive(rep):
+    """the unification family against su (C02's contracts): every property whose statement says `matches` / `unifies` rests on it"""
+    if getattr(rep, '_unify_done', False):
+        return
+    rep._unify_done = True
+    fw.deductive(rep, [t for t in UNIFY_FAMILY if 'get_value' not in t], ['engine_terms'], ['terms.smt2'], timeout=25 if rep.tier == 'quick' else 60)
+
+
+def file_loader_obligation(rep):
+    """load_script_from_file is "the same as load_script_from_string, but from file fn" (its docstring): same default for every
+    parameter the two share, and its body hands the text read from open(fn) and its own `overwrite` / `fn` on to load_script_from_string"""
+    import ast
+    from ..pyvc import core
+    mod = core.module('engine')
+    f1, f2 = mod.functions.get('YP.load_script_from_file'), mod.functions.get('YP.load_script_from_string')
+    probs = []
+    if f1 is None or f2 is None:
+        probs.append('function not found')
+    else:
+        def defaults(f):
+            a = f.args.args
+            return {p.arg: ast.unparse(d) for p, d in zip(a[len(a) - len(f.args.defaults):], f.args.defaults)}
+        d1, d2 = defaults(f1), defaults(f2)
+        for n in sorted(set(d1) & set(d2)):
+            if n != 'fn' and d1[n] != d2[n]:
+                probs.append('default of %s is %s, load_script_from_string has %s' % (n, d1[n], d2[n]))
+        calls = [n for n in core.walk_own(f1) if isinstance(n, ast.Call) and ast.unparse(n.func) == 'self.load_script_from_string']
+        if len(calls) != 1:
+            probs.append('does not call load_script_from_string exactly once')
+        else:
+            c = calls[0]
+            names2 = [p.arg for p in f2.args.args][1:]
+            given = dict(zip(names2, c.args))
+            given.update({k.arg: k.value for k in c.keywords if k.arg})
+            if 'overwrite' not in given or not (isinstance(given['overwrite'], ast.Name) and given['overwrite'].id == 'overwrite'):
+                probs.append('its overwrite parameter is not handed on')
+            if any(isinstance(n, ast.Name) and n.id == 'overwrite' and isinstance(n.ctx, ast.Store) for n in core.walk_own(f1)):
+                probs.append('overwrite is reassigned')
+            txt = given.get(names2[0])
+            if txt is None or not (isinstance(txt, ast.Call) and isinstance(txt.func, ast.Attribute) and txt.func.attr == 'read' and not txt.args):
+                probs.append('the script text is not <file>.read()')
+            opens = [n for n in core.walk_own(f1) if isinstance(n, ast.Call) and ast.unparse(n.func) == 'open']
+            if len(opens) != 1 or not opens[0].args or ast.unparse(opens[0].args[0]) != f1.args.args[1].arg:
+                probs.append('the file opened is not the parameter')
+    rep.add_checked('engine.YP.load_script_from_file.same_as_from_string', not probs, '; '.join(probs), 'ast',
+                    function='engine.YP.load_script_from_file', witness=probs or None)
